@@ -1245,6 +1245,34 @@ func feasiblyReaches(from *ssa.BasicBlock, init map[ssa.Value]vfact, target *ssa
 // feasible path, the facts that dominate H plus the outcomes taken on the path. A fact whose left operand was a phi
 // resolved on the path carries the resolved operand in X.
 func nearPathFacts(site ssa.Instruction, max int) [][]fact {
+	var out [][]fact
+	for _, p := range nearPaths(site, max) {
+		out = append(out, p.facts)
+	}
+	return out
+}
+
+// nearPath is one way into an instruction: the facts known on it and the operand every phi of the region stands for.
+type nearPath struct {
+	facts []fact
+	res   map[*ssa.Phi]ssa.Value
+}
+
+// value resolves v (through conversions) to what it stands for on the path.
+func (p nearPath) value(v ssa.Value) ssa.Value {
+	for i := 0; i < 8; i++ {
+		if phi, isPhi := unwrap(v).(*ssa.Phi); isPhi {
+			if r, known := p.res[phi]; known {
+				v = r
+				continue
+			}
+		}
+		break
+	}
+	return v
+}
+
+func nearPaths(site ssa.Instruction, max int) []nearPath {
 	tb := site.Block()
 	region := func(h *ssa.BasicBlock) (map[*ssa.BasicBlock]bool, bool) {
 		// blocks on some path h -> tb; acyclic?
@@ -1271,11 +1299,8 @@ func nearPathFacts(site ssa.Instruction, max int) [][]fact {
 		}
 		return in, true
 	}
-	type pathRes struct {
-		facts []fact
-	}
-	enumerate := func(h *ssa.BasicBlock, in map[*ssa.BasicBlock]bool) ([][]fact, bool) {
-		var out [][]fact
+	enumerate := func(h *ssa.BasicBlock, in map[*ssa.BasicBlock]bool) ([]nearPath, bool) {
+		var out []nearPath
 		ok := true
 		res := map[*ssa.Phi]ssa.Value{}
 		resolve := func(v ssa.Value) ssa.Value {
@@ -1376,7 +1401,11 @@ func nearPathFacts(site ssa.Instruction, max int) [][]fact {
 					ok = false
 					return
 				}
-				out = append(out, append(append([]fact{}, base...), cur...))
+				snap := map[*ssa.Phi]ssa.Value{}
+				for k, v := range res {
+					snap[k] = v
+				}
+				out = append(out, nearPath{append(append([]fact{}, base...), cur...), snap})
 				return
 			}
 			iff, isIf := b.Instrs[len(b.Instrs)-1].(*ssa.If)
@@ -1396,12 +1425,12 @@ func nearPathFacts(site ssa.Instruction, max int) [][]fact {
 			}
 		}
 		if h == tb {
-			return [][]fact{base}, true
+			return []nearPath{{facts: base}}, true
 		}
 		walk(h, nil, nil)
 		return out, ok
 	}
-	best := [][]fact{factsAt(tb)}
+	best := []nearPath{{facts: factsAt(tb)}}
 	h := tb
 	for steps := 0; steps < 12; steps++ {
 		cand := h.Idom()
